@@ -469,6 +469,84 @@ def d7(ctx, prog, ci):
     return 1
 
 
+def d8(ctx, prog, ci):
+    """scale independence of the edge validation (dimensional analysis, sa.units): the edges carry the unit u of the samples; every
+    comparison of the setter - and every max()/min() that builds a tolerance - must combine values of the same dimension (or test
+    against zero).  A width difference compared with a bare number such as 1e-9 makes the verdict depend on the unit of the traces:
+    the automatic edges (linspace over the observed window) of samples of magnitude 1e7 are then refused as 'not uniform' because
+    of the rounding of the edges themselves."""
+    from .. import units, inline
+    setter = ci.setters.get('bin_edges')
+    setter = inline.inlined(prog, setter)
+    p = [x for x in setter.params if x != 'self'][0]
+    xc = units.Units(setter, seeds={p: units.D(u=1)}, prog=prog).run()
+    n = 0
+    judged_uniformity = False
+
+    def dim(e):
+        try:
+            return xc.ev(e)
+        except Exception:
+            return units.TOP
+
+    def scaled(d_):
+        return isinstance(d_, dict) and d_.get('u', 0) != 0
+
+    def bare_number(e, d_):
+        # a dimensionless operand that is not zero (zero is the same in every unit)
+        return d_ == units.CONST and const_value(e) != 0 or (isinstance(d_, dict) and not d_ and not isinstance(e, ast.Constant))
+    for node in ast.walk(setter.node):
+        pairs = []
+        if isinstance(node, ast.Compare):
+            sides = [node.left] + list(node.comparators)
+            pairs = [(a, b) for a, b in zip(sides, sides[1:]) if not isinstance(node.ops[0], (ast.Is, ast.IsNot, ast.In, ast.NotIn))]
+        elif isinstance(node, ast.Call) and (isinstance(node.func, ast.Name) and node.func.id in ('max', 'min') and len(node.args) >= 2 or
+                                            isinstance(node.func, ast.Attribute) and node.func.attr in ('maximum', 'minimum', 'fmax', 'fmin') and len(node.args) >= 2):
+            pairs = [(node.args[0], b) for b in node.args[1:]]
+        for a, b in pairs:
+            da, db = dim(a), dim(b)
+            if not (scaled(da) or scaled(db)):
+                continue
+            n += 1
+            key = f'{setter.key}::{norm(node)[:90]}'
+            uses_widths = any(isinstance(c, ast.Call) and norm(c.func).split('.')[-1] in ('diff', 'ediff1d') for c in ast.walk(astutil.expand_locals(node, astutil.local_defs(setter.node))))
+            if scaled(da) and scaled(db):
+                if da == db:
+                    ctx.ok('C13-D8', key, f'both sides have the dimension of the samples ({units.show(da)}): the verdict does not depend on their unit', setter.where(node))
+                    judged_uniformity = judged_uniformity or uses_widths
+                else:
+                    ctx.fail('C13-D8', key, f'`{norm(a)[:40]}` ({units.show(da)}) is compared / combined with `{norm(b)[:40]}` ({units.show(db)})', setter.where(node))
+                    judged_uniformity = judged_uniformity or uses_widths
+            elif (scaled(da) and bare_number(b, db)) or (scaled(db) and bare_number(a, da)):
+                other = b if scaled(da) else a
+                ctx.fail('C13-D8', key, f'a quantity in the unit of the samples is compared / combined with the bare number `{norm(other)[:30]}`: the verdict depends on the magnitude of the traces - '
+                         'the automatic edges of samples around 1e7 and above (raw 32-bit acquisitions) are refused as non uniform because of their own rounding, and edges of tiny magnitude are never refused',
+                         setter.where(node))
+                judged_uniformity = judged_uniformity or uses_widths
+            elif da is units.TOP or db is units.TOP:
+                if uses_widths:
+                    ctx.undecided('C13-D8', key, 'dimension of one side of the uniformity comparison not derivable', setter.where(node))
+                    judged_uniformity = True
+            else:
+                ctx.ok('C13-D8', key, 'comparison with zero (the same in every unit)', setter.where(node))
+    if not judged_uniformity:
+        # allclose / isclose forms: atol is a bare number unless it is 0 and rtol applies to widths
+        closes = [c for c in ast.walk(setter.node) if isinstance(c, ast.Call) and norm(c.func).split('.')[-1] in ('allclose', 'isclose')]
+        for c in closes:
+            atol = next((k.value for k in c.keywords if k.arg == 'atol'), c.args[3] if len(c.args) > 3 else None)
+            key = f'{setter.key}::{norm(c)[:90]}'
+            n += 1
+            da = dim(atol) if atol is not None else units.CONST
+            if atol is None or (da == units.CONST and const_value(atol) != 0):
+                ctx.fail('C13-D8', key, f'the absolute tolerance of `{norm(c.func)}` is the bare number {norm(atol) if atol is not None else "1e-08 (default)"}: the verdict depends on the magnitude of the traces', setter.where(c))
+            else:
+                ctx.ok('C13-D8', key, 'absolute tolerance zero or in the unit of the samples', setter.where(c))
+            judged_uniformity = True
+    if not judged_uniformity:
+        ctx.undecided('C13-D8', f'{setter.key}::uniformity comparison', 'no comparison of the edge widths with a tolerance was identified', setter.where())
+    return n
+
+
 def run(ctx, prog):
     from .. import universe as _uni0
     _uni0.inline_base_entry_points(ctx, prog)
@@ -485,6 +563,8 @@ def run(ctx, prog):
     ctx.floor('MIA statistic compared with its definition', d7(ctx, prog, ci), 1)
     ctx.rule('C13-D6', 'reductions of the histogram counts run in numpy\'s default (64-bit) accumulator or an explicitly wide type, never in the configurable accumulator precision')
     ctx.floor('count reductions judged (MIA)', d6(ctx, prog, ci), 3)
+    ctx.rule('C13-D8', 'scale independence of the edge validation: every comparison / max / min of the bin_edges setter combines values of the same dimension (or tests against zero) - a width difference is never compared with a bare number')
+    ctx.floor('dimension obligations (bin edges)', d8(ctx, prog, ci), 2)
     ctx.rule('C13-D4', 'axis-label typing of the MIA kernel, _compute_pdf and _compute: every broadcast aligned, (S,B,P,W) reduced to the documented (W,S)')
     from .. import axes
     n4 = axes.check_family(ctx, prog, 'C13-D4', [MIA])
